@@ -126,7 +126,10 @@ impl<'a, P: ?Sized + PathImpl> PathMutImpl<'a, P> {
 		if (is_empty && self.is_relative())
 			|| self.last().map(SegmentImpl::as_bytes) == Some(PARENT_SEGMENT)
 		{
-			self.push(<P::Segment as SegmentImpl>::PARENT);
+			self.push(verif_static!(
+				<P::Segment as SegmentImpl>::PARENT,
+				<P::Segment as SegmentImpl>::new_unchecked(b"..")
+			));
 			true
 		} else if !is_empty {
 			let start = self.first_segment_offset();
@@ -186,7 +189,10 @@ impl<'a, P: ?Sized + PathImpl> PathMutImpl<'a, P> {
 		}
 
 		if open && !self.is_empty() {
-			self.push(<P::Segment as SegmentImpl>::EMPTY)
+			self.push(verif_static!(
+				<P::Segment as SegmentImpl>::EMPTY,
+				<P::Segment as SegmentImpl>::new_unchecked(b"")
+			))
 		}
 	}
 
